@@ -333,6 +333,11 @@ theorem inv_step (st : St) (h : Inv st) (op : Op) : Inv (step st op).1 := by
           simp
       · exact h.routes
     · simp only [hr]; exact h
+  | attachOne id node lane =>
+    simp only [step]
+    split
+    · exact ⟨h.iso, h.compl, h.routes⟩
+    · exact h
   | input frame =>
     simp only [step]
     by_cases hr : st.running = true
@@ -357,6 +362,7 @@ theorem inv_step (st : St) (h : Inv st) (op : Op) : Inv (step st op).1 := by
         subst e
         exact h.compl hr d hd0 ha0
       · exact h.routes
+    | ow id => exact ⟨h.iso, h.compl, h.routes⟩
     | agent i =>
       simp only [step]
       refine ⟨h.iso, h.compl, ?_⟩
